@@ -14,18 +14,18 @@ VERIF = Path(__file__).resolve().parent.parent
 
 
 def main(results_file: str, delivery: str = "/tmp/seed_out", offset: int = 0):
+    notes_file = VERIF / "seeded" / "NOTES.json"
+    notes = json.loads(notes_file.read_text())["notes"] if notes_file.exists() else {}
     latest = {}
     for l in Path(results_file).read_text().splitlines():
         r = json.loads(l)
         latest[(r["id"], r["k"])] = r
-    notes_file = VERIF / "seeded" / "NOTES.json"
-    notes = json.loads(notes_file.read_text())["notes"] if notes_file.exists() else {}
     rows = []
     for (pid, k), r in sorted(latest.items()):
         src = Path(delivery) / pid
-        if not r.get("verify", {}).get("ok"):
-            continue
         sid = f"{pid}-{int(k) + offset}"
+        if not r.get("verify", {}).get("ok") and sid not in notes:
+            continue   # (a change that no longer verifies is only kept when NOTES.json says why)
         d = VERIF / "seeded" / sid
         d.mkdir(parents=True, exist_ok=True)
         shutil.copy(src / f"patch{k}.diff", d / "patch.diff")
@@ -47,11 +47,12 @@ def main(results_file: str, delivery: str = "/tmp/seed_out", offset: int = 0):
                 "git -C /repo apply patch.diff; ./check <id> --tier quick (for each check listed under checks_run); git -C /repo checkout -- .",
             ],
             "checks_run": {c: {"exit": v["rc"], "first_report": (v["first"][1] if len(v["first"]) > 1 else (v["first"][0] if v["first"] else ""))[:500]} for c, v in caught.items()},
+            "verified_against_current_head": bool(r.get("verify", {}).get("ok")),
             "caught_by": sorted(c for c, v in caught.items() if v["rc"] == 1),
             "note": notes.get(sid, r.get("note", "")),
         }
         (d / "meta.json").write_text(json.dumps(meta_out, indent=1) + "\n")
-        rows.append((sid, pid, (meta.get("summary") or "")[:110], ", ".join(meta_out["caught_by"]) or "MISSED", meta_out["note"]))
+        rows.append((sid, pid, (meta.get("summary") or "")[:110], ", ".join(meta_out["caught_by"]) or ("no longer breaks the property (see note)" if not meta_out["verified_against_current_head"] else "not claimed (see note)" if "not claimed" in str(meta_out["note"]).lower() else "MISSED"), meta_out["note"]))
     print("| seeded | property | change | caught by (quick tier) | note |\n|---|---|---|---|---|")
     for row in rows:
         print("| " + " | ".join(str(x).replace("|", "/").replace("\n", " ") for x in row) + " |")
